@@ -388,7 +388,7 @@ func RunCheck(opt Options) int {
 			defer wg.Done()
 			sem <- struct{}{}
 			defer func() { <-sem }()
-			res := Solve(ob.script, timeout, ob.Quant, opt.Tier == "thorough")
+			res := ob.solveAll(timeout, opt.Tier == "thorough")
 			ob.Result = &res
 		}()
 	}
@@ -403,18 +403,180 @@ func RunCheck(opt Options) int {
 }
 
 // prepare renders the SMT script of an obligation (or decides it trivially).
+// skolemize replaces universally quantified variables in positive positions of a goal by fresh constants.
+func skolemize(g *Term, sks *[]*Term) *Term {
+	switch g.op {
+	case "forall":
+		m := map[*Term]*Term{}
+		for _, b := range g.binds {
+			c := Fresh("sk!"+b.name, b.sort)
+			m[b] = c
+			*sks = append(*sks, c)
+		}
+		return skolemize(Subst(g.args[0], m), sks)
+	case "and":
+		var out []*Term
+		for _, a := range g.args {
+			out = append(out, skolemize(a, sks))
+		}
+		return And(out...)
+	case "=>":
+		return Implies(g.args[0], skolemize(g.args[1], sks))
+	}
+	return g
+}
+
+// instantiateAt adds ground instances of the universally quantified conjuncts of pc at the goal's skolem constants
+// (E-matching often misses them when the goal state differs from the hypothesis state by stores).
+func instantiateAt(pc *Term, sks []*Term) []*Term {
+	if len(sks) == 0 {
+		return nil
+	}
+	var conj []*Term
+	if pc.op == "and" {
+		conj = pc.args
+	} else {
+		conj = []*Term{pc}
+	}
+	var out []*Term
+	var visit func(t *Term, guard *Term)
+	visit = func(t *Term, guard *Term) {
+		switch t.op {
+		case "and":
+			for _, a := range t.args {
+				visit(a, guard)
+			}
+		case "=>":
+			visit(t.args[1], And(guard, t.args[0]))
+		case "forall":
+			// all combinations of skolems with matching sorts (bounded)
+			combos := [][]*Term{{}}
+			for _, b := range t.binds {
+				var next [][]*Term
+				for _, c := range combos {
+					for _, sk := range sks {
+						if sk.sort == b.sort {
+							next = append(next, append(append([]*Term{}, c...), sk))
+						}
+					}
+				}
+				combos = next
+				if len(combos) == 0 || len(combos) > 24 {
+					return
+				}
+			}
+			for _, c := range combos {
+				m := map[*Term]*Term{}
+				for i, b := range t.binds {
+					m[b] = c[i]
+				}
+				inst := Subst(t.args[0], m)
+				out = append(out, Implies(guard, inst))
+				// one more level: nested quantifiers in the instance
+				visit(inst, guard)
+			}
+		}
+	}
+	for _, c := range conj {
+		visit(c, True)
+	}
+	return out
+}
+
 func (ob *Obligation) prepare() {
 	var disj []*Term
 	for _, p := range ob.pairs {
-		disj = append(disj, And(p[0], Not(p[1])))
+		var sks []*Term
+		goal := skolemize(p[1], &sks)
+		extra := instantiateAt(p[0], sks)
+		// a conjunctive goal is proved conjunct by conjunct (each query is much easier than the disjunction of negations)
+		parts := []*Term{goal}
+		if hasQuant(p[0]) {
+			parts = splitGoal(goal)
+		}
+		for _, g := range parts {
+			d := And(append([]*Term{p[0], Not(g)}, extra...)...)
+			if !d.isFalse() {
+				disj = append(disj, d)
+			}
+		}
 	}
-	neg := Or(disj...)
-	if neg.isFalse() {
+	if len(disj) == 0 {
 		ob.Result = &SolveResult{Status: "unsat", Solver: "govc-simplifier"}
 		return
 	}
+	// one script per path (a disjunction over paths is harder for the solvers than the separate cases); unquantified
+	// obligations with many paths are grouped to keep the number of solver runs down
+	var groups []*Term
+	quant := false
+	for _, d := range disj {
+		if hasQuant(d) {
+			quant = true
+		}
+	}
+	if quant || len(disj) <= 4 {
+		groups = disj
+	} else {
+		const per = 8
+		for k := 0; k < len(disj); k += per {
+			e := k + per
+			if e > len(disj) {
+				e = len(disj)
+			}
+			groups = append(groups, Or(disj[k:e]...))
+		}
+	}
+	ob.Quant = quant
+	for _, g := range groups {
+		sc := scriptFor(g)
+		ob.scripts = append(ob.scripts, sc)
+		ob.SMTSize += len(sc)
+	}
+	ob.script = ob.scripts[0]
+}
+
+// splitGoal breaks A && B and P => (A && B) into separately provable goals.
+func splitGoal(g *Term) []*Term {
+	switch g.op {
+	case "and":
+		var out []*Term
+		for _, a := range g.args {
+			out = append(out, splitGoal(a)...)
+		}
+		return out
+	case "=>":
+		var out []*Term
+		for _, c := range splitGoal(g.args[1]) {
+			out = append(out, Implies(g.args[0], c))
+		}
+		return out
+	}
+	return []*Term{g}
+}
+
+func hasQuant(t *Term) bool {
+	seen := map[int]bool{}
+	var rec func(t *Term) bool
+	rec = func(t *Term) bool {
+		if seen[t.id] {
+			return false
+		}
+		seen[t.id] = true
+		if t.op == "forall" || t.op == "exists" {
+			return true
+		}
+		for _, a := range t.args {
+			if rec(a) {
+				return true
+			}
+		}
+		return false
+	}
+	return rec(t)
+}
+
+func scriptFor(neg *Term) string {
 	asserts := []*Term{neg}
-	// facts closure
 	seen := map[int]bool{}
 	factSeen := map[int]bool{}
 	var queue []*Term
@@ -424,9 +586,6 @@ func (ob *Obligation) prepare() {
 			return
 		}
 		seen[t.id] = true
-		if t.op == "forall" || t.op == "exists" {
-			ob.Quant = true
-		}
 		if fs, ok := termFacts[t.id]; ok {
 			for _, f := range fs {
 				if !factSeen[f.id] {
@@ -446,8 +605,26 @@ func (ob *Obligation) prepare() {
 		asserts = append(asserts, f)
 		visit(f)
 	}
-	ob.script = Script(asserts, true)
-	ob.SMTSize = len(ob.script)
+	return Script(asserts, true)
+}
+
+// solveAll discharges every script of the obligation; the obligation holds iff all are unsat.
+func (ob *Obligation) solveAll(timeout int, needAgree bool) SolveResult {
+	var agg SolveResult
+	agg.Status = "unsat"
+	for i, sc := range ob.scripts {
+		r := Solve(sc, timeout, ob.Quant, needAgree)
+		agg.Seconds += r.Seconds
+		if i == 0 {
+			agg.Solver = r.Solver
+		}
+		if r.Status != "unsat" {
+			r.Seconds = agg.Seconds
+			ob.script = sc
+			return r
+		}
+	}
+	return agg
 }
 
 type replayFile struct {
@@ -876,6 +1053,26 @@ func (ev *Eval) evalAddr(e *Expr) *Value {
 						LV: &LValue{kind: lvField, obj: x.term(), st: st, field: i, t: ft, rootT: ft}}
 				}
 			}
+		}
+	}
+	if e.Op == "id" && ev.st != nil && ev.st.frame != nil {
+		// address of a captured variable or an escaping local
+		if ev.fn != nil {
+			for _, fv := range ev.fn.FreeVars {
+				if fv.Name() == e.Name {
+					if val, ok := ev.st.frame.regs[fv]; ok && val.L[0] != nil {
+						return val
+					}
+				}
+			}
+		}
+		for reg, val := range ev.st.frame.regs {
+			if a, ok := reg.(*ssa.Alloc); ok && a.Heap && a.Comment == e.Name && val.L[0] != nil {
+				return val
+			}
+		}
+		if v, ok := ev.env["&"+e.Name]; ok {
+			return v
 		}
 	}
 	ev.fail("cannot take address of %q", e.Text)
